@@ -3,6 +3,7 @@ package main
 import (
 	"encoding/json"
 	"fmt"
+	"os"
 	"strings"
 	"time"
 )
@@ -44,6 +45,30 @@ func replayOther(sc, path, prop, kind, class string, raw json.RawMessage) int {
 				w.kill()
 			}
 		}()
+		if os.Getenv("VERIF_DUMP") != "" {
+			// print the plain execution of the (faulted) call: events, errors, injections
+			dr := *rp.Request
+			dr.Kind = "run"
+			if len(rp.Request.FaultSets) > 0 {
+				dr.Call.Plan.Faults = rp.Request.FaultSets[0]
+			}
+			if len(rp.Request.Budgets) > 0 {
+				dr.Call.Opts.MaxExpr = rp.Request.Budgets[0]
+			}
+			if dresp, dst, _ := pcall(w, &dr, 120*time.Second); dst == callOK && len(dresp.Results) > 0 {
+				r := dresp.Results[0]
+				fmt.Printf("DUMP value=%s err_nil=%v escaped=%s exprcnt=%d\n", r.Value, r.ErrNil, r.Escaped, r.ExprCnt)
+				for _, e := range r.Events {
+					fmt.Printf("DUMP event %s tick=%d\n", e.String(), e.Tick)
+				}
+				for i, e := range r.Errs {
+					fmt.Printf("DUMP err[%d] %q inner=%q injected_idx=%d\n", i, e.Msg, e.InnerMsg, e.InjectedIdx)
+				}
+				for i, in := range r.Injected {
+					fmt.Printf("DUMP injected[%d] seq=%d site=%d n=%d kind=%s msg=%s\n", i, in.Seq, in.Site, in.N, in.Kind, in.Msg)
+				}
+			}
+		}
 		resp, st, detail := pcall(w, rp.Request, 120*time.Second)
 		if rp.FreshSolo && st == callOK {
 			w2 := &worker{bin: pw.bin, env: env}
